@@ -9,6 +9,9 @@ RULE = ('Master-level histories as in C09; after EVERY completed cycle a forked 
         'the ctime of every entry under it and the recorded instances together fit its declared capacity, partition, '
         'traits and server-level affinity limit. Oracle: every entry under a healthy server is placed there with the '
         'recorded identity and expires and was there in the old master; nothing is placed without a record. '
+        'Every third history also starts a standby master the way the service does - Master.run(), queued on the '
+        'election lock the leader holds - at the beginning and lets it take over at the end (the leader\'s session ends); '
+        'the same oracle runs on its model when it reaches init_schedule. '
         'Non-trivial: a stored state with a down server holding entries, a lease/schedule-once/identity-holding entry '
         'or a server restarted since placement; distinct by (history, cycle).')
 ASSUMPTIONS = ['in-memory ZooKeeper fake (ctime from the virtual clock)', 'fork()ed children', 'virtual clock']
@@ -40,7 +43,11 @@ def run(ctx):
             ctx.violation(mech, msg, case=dict(ops=h.d.ops[-40:], cycle=h.cycles, when=when))
 
     for idx, rng in ctx.cases():
-        h = mengine.MHistory(ctx, rng, mdrv.MProfile(weights={'partition_schedule': 4}), [])
+        pf = mdrv.MProfile(weights={'partition_schedule': 4})
+        if idx % 3 == 1:
+            # a standby master queues for the election lock at the start (Master.run) and takes over at the end
+            pf.standby, pf.p_restart = True, 0.0
+        h = mengine.MHistory(ctx, rng, pf, [])
         h.hooks.append(hook)
         try:
             h.run()
